@@ -35,6 +35,10 @@ pub enum Viol {
     ValueTooBig { j: u16, which: u8, promise_fix: bool },
     /// promise above the value; which: 0 => v + 1, 1 => 2^bits - 1 (if > v), 2 => u64::MAX
     PromiseAbove { j: u16, which: u8 },
+    /// hand-edited statement (its fields are public): the compressed copy of commitment j is the encoding of ANOTHER commitment;
+    /// the witness opens either that other commitment (`opens_compressed`) or the commitment itself. Only the clause "whenever
+    /// a proof is returned it verifies" is judged on such statements.
+    CompressedCopy { j: u16, opens_compressed: bool },
 }
 
 fn viol_strategy() -> impl Strategy<Value = Viol> {
@@ -48,6 +52,7 @@ fn viol_strategy() -> impl Strategy<Value = Viol> {
         1 => (any::<u16>(), any::<u16>()).prop_map(|(a, b)| Viol::SwapOpenings(a, b)),
         3 => (any::<u16>(), 0u8..3, any::<bool>()).prop_map(|(j, which, promise_fix)| Viol::ValueTooBig { j, which, promise_fix }),
         3 => (any::<u16>(), 0u8..3).prop_map(|(j, which)| Viol::PromiseAbove { j, which }),
+        1 => (any::<u16>(), any::<bool>()).prop_map(|(j, opens_compressed)| Viol::CompressedCopy { j, opens_compressed }),
     ]
 }
 
@@ -114,10 +119,23 @@ pub fn oracle<E: Engine>(_ctx: &RunCtx, spec: &WitSpec, log: &mut CaseLog) -> Re
         .zip(st_blind.iter())
         .map(|(v, r)| E::commit(t.params.pc_gens(), &Scalar::from(*v), r).map_err(|e| format!("commit: {:?}", e)))
         .collect::<Result<_, _>>()?;
-    let st = RangeStatement::init(t.params.clone(), commitments.clone(), promises.clone(), t.seed).map_err(|e| format!("statement: {:?}", e))?;
+    let mut st = RangeStatement::init(t.params.clone(), commitments.clone(), promises.clone(), t.seed).map_err(|e| format!("statement: {:?}", e))?;
     // witness side
     let mut w_values = values.clone();
     let mut w_blind = st_blind.clone();
+    let mut judge_emission = true;
+    if let Viol::CompressedCopy { j, opens_compressed } = &spec.viol {
+        use tari_bulletproofs_plus::traits::Compressable;
+        let j = pick(*j, cfg.m);
+        let mut other = st_blind[j].clone();
+        other[0] += Scalar::ONE;
+        let c = E::commit(t.params.pc_gens(), &Scalar::from(values[j]), &other).map_err(|e| format!("commit: {:?}", e))?;
+        st.commitments_compressed[j] = c.compress();
+        if *opens_compressed {
+            w_blind[j] = other;
+        }
+        judge_emission = false;
+    }
     match &spec.viol {
         Viol::OpeningCount(how) => {
             let m = cfg.m;
@@ -196,6 +214,7 @@ pub fn oracle<E: Engine>(_ctx: &RunCtx, spec: &WitSpec, log: &mut CaseLog) -> Re
     let r = guarded(|| E::prove(&mut t.transcript(), &st, &w, &mut spec.base.rng.make()))
         .map_err(|e| format!("{} in the prover (violation {:?})", e, spec.viol))?;
     match (&r, valid) {
+        _ if !judge_emission => {},
         (Ok(_), false) => {
             return Err(format!(
                 "prover EMITTED a proof for an invalid witness: violation {:?} (bits {}, m {}, degree {})",
@@ -260,7 +279,7 @@ pub fn def() -> PropertyDef {
                count (half / double / +1 / -1), witness degree +1 (extra component zero or not) or -1 (dropped component zero, so the short \
                opening still reproduces the commitment, or not), value +-1, one blinding component +1, two openings swapped, a value >= 2^bits \
                committed consistently (2^bits, 2^bits+1, u64::MAX; with or without a promise that brings value - promise back into range), a \
-               promise above the value (v+1, 2^bits-1, u64::MAX). Oracle: prove_with_rng is Ok <=> an independently written validity predicate \
+               promise above the value (v+1, 2^bits-1, u64::MAX); or a hand-edited statement (public fields) whose compressed copy of commitment j encodes another commitment, the witness opening either of the two - on these only 'a returned proof verifies' is judged. Oracle: prove_with_rng is Ok <=> an independently written validity predicate \
                (counts, degree, value*h + sum r_k*g_k == commitment under the statement's generators by independent arithmetic, value < 2^bits in 128-bit arithmetic, promise <= value); Ok => the proof verifies; Err => no panic. Non-trivial = exactly one applied violation, or a boundary value (2^bits-1, \
                promise == value); distinct by (violation incl. position, bits, m, degree, validity)."
             .into(),
